@@ -163,14 +163,25 @@ def abort_helper(prog):
         body = prog.resolve_local(fr)
         if body is None or body.path == r.path or body.arg_count < 3:
             continue
-        # trailing label parameters (`ctx: &'static str`, a small integer or flag used for logging) do not change the role
-        extra_ok = all(body.local_ty(i).replace("'static ", "").replace("'_ ", "") in ("&str", "bool", "usize", "u32", "u8", "u64", "i32")
-                       for i in range(4, body.arg_count + 1))
-        if "World" in body.local_ty(1) and body.local_ty(2) == st and body.local_ty(3) == ct and extra_ok:
+        # the world, exactly one setup and one cleanup; further parameters may only be labels / ids (`ctx: &'static str`, a
+        # flag, the command's own id): they do not change the role
+        tys_ = [body.local_ty(i) for i in range(1, body.arg_count + 1)]
+        others_ = [t_ for t_ in tys_[1:] if t_ not in (st, ct)]
+        extra_ok = all(t_.replace("'static ", "").replace("'_ ", "") in ("&str", "bool", "usize", "u32", "u8", "u64", "i32")
+                       or t_.endswith(("::SystemCommand", "entity::Entity")) for t_ in others_)
+        if "World" in tys_[0] and tys_.count(st) == 1 and tys_.count(ct) == 1 and extra_ok:
             cands[body.path] = body
     if len(cands) != 1:
         raise AnchorLost("abort helper: %d candidates" % len(cands))
     return list(cands.values())[0]
+
+
+def abort_positions(prog):
+    """(index of the setup parameter, index of the cleanup parameter) of the abort helper (1-based parameter numbers)"""
+    r = runner(prog)
+    h = abort_helper(prog)
+    tys_ = [h.local_ty(i) for i in range(1, h.arg_count + 1)]
+    return tys_.index(r.local_ty(3)) + 1, tys_.index(r.local_ty(4)) + 1
 
 
 def replay_closures(prog):
@@ -228,7 +239,10 @@ def carrier_methods(prog, type_suffix):
     """role: (consume, construct) of a setup/cleanup carrier type: the inherent method taking (self by value, &mut World)
     and the associated fn without a self parameter that returns the type"""
     ms = methods_of(prog, type_suffix)
-    consume = [m for m in ms if m.arg_count == 2 and re.sub(r"<.*$", "", m.local_ty(1)).endswith("::" + type_suffix) and "World" in m.local_ty(2) and m.local_ty(0) == "()"]
+    # (self by value, &mut World[, the command's id / a label]) -> ()
+    consume = [m for m in ms if m.arg_count >= 2 and re.sub(r"<.*$", "", m.local_ty(1)).endswith("::" + type_suffix) and "World" in m.local_ty(2) and m.local_ty(0) == "()"
+               and all(m.local_ty(i).endswith(("::SystemCommand", "entity::Entity")) or m.local_ty(i).replace("'static ", "") in ("&str", "bool", "usize")
+                       for i in range(3, m.arg_count + 1))]
     construct = [m for m in ms if re.sub(r"<.*$", "", m.local_ty(0)).endswith("::" + type_suffix) and m.arg_count >= 1
                  and not any(type_suffix in m.local_ty(i) for i in range(1, m.arg_count + 1))]
     if len(consume) != 1 or len(construct) != 1:
